@@ -3,6 +3,7 @@ package bridge
 import (
 	"context"
 	"encoding/json"
+	"errors"
 	"fmt"
 
 	abci "github.com/cometbft/cometbft/abci/types"
@@ -147,7 +148,9 @@ func (am AppModule) EndBlock(ctx context.Context) error {
 		return nil
 	}
 	_, err := am.keeper.CompareAndSetBridgeValidators(sdkCtx)
-	if err != nil {
+	// validators that have just entered the bonded set register their EVM address with their first vote extensions;
+	// until one of them has, there is no bridge validator set to compare, which is no reason to fail the block
+	if err != nil && !errors.Is(err, keeper.ErrNoEVMValidators) {
 		return err
 	}
 
